@@ -286,7 +286,7 @@ func ensureCalcBinary() string {
 	}
 	bin := filepath.Join(dir, "calc")
 	cmd := exec.Command("go", "build", "-o", bin, "./cmd/calc")
-	cmd.Dir = "/repo"
+	cmd.Dir = core.RepoDir()
 	cmd.Env = append(os.Environ(), "GOFLAGS=-mod=mod", "GOPROXY=off", "GOSUMDB=off", "GOTOOLCHAIN=local")
 	if out, err := cmd.CombinedOutput(); err != nil {
 		panic(fmt.Sprintf("building cmd/calc failed: %v %s", err, out))
